@@ -64,7 +64,7 @@ func (c *Client) Find(ctx context.Context, m multihash.Multihash) (*model.FindRe
 		return nil, err
 	}
 
-	req.Header.Set("Content-Type", "application/json")
+	req.Header.Set("Accept", "application/json")
 	resp, err := c.c.Do(req)
 	if err != nil {
 		return nil, err
